@@ -130,6 +130,8 @@ def run(prop, tier, seed, replay):
                 kw["patch_name"] = "patch"
             else:
                 kw.update(patch_num=min(N, 3), probe_size=n)
+            if (root / f"c{ci % 3}").exists() and not (root / f"c{ci % 3}" / "patch_ids.bin").exists():
+                C.remove(root / f"c{ci % 3}")       # left by a refused creation: not a cache, not overwritable
             try:
                 with C.Workers(workers):
                     if source == "df":
@@ -140,7 +142,7 @@ def run(prop, tier, seed, replay):
                         elif idx_kind == "shuffled-labels":
                             pdf.index = nprng.permutation(len(pdf))
                         ck.count(f"index={idx_kind}")
-                        cat = Catalog.from_dataframe(root / f"c{ci}", pdf, **kw)
+                        cat = Catalog.from_dataframe(root / f"c{ci % 3}", pdf, **kw)
                     else:
                         path = root / f"in{ci}.{ {'fits': 'fits', 'hdf5': 'hdf5', 'parquet': 'pqt'}[source] }"
                         if source == "fits":
@@ -164,7 +166,7 @@ def run(prop, tier, seed, replay):
                                         wr.write_table(tab.slice(at, k))
                                         at += k
                                 ck.count("parquet:non-uniform-row-groups")
-                        cat = Catalog.from_file(root / f"c{ci}", path, **kw)
+                        cat = Catalog.from_file(root / f"c{ci % 3}", path, **kw)
                         path.unlink()
             except Exception as e:  # noqa: BLE001
                 exp = expected_records(cols, degrees)
@@ -177,7 +179,7 @@ def run(prop, tier, seed, replay):
                     ck.count(f"rejected:num:{type(e).__name__}")
                 else:
                     ck.add_violation(f"creation raised {type(e).__name__}: {e}", rep)
-                C.remove(root / f"c{ci}")
+                C.remove(root / f"c{ci % 3}")
                 continue
             exp = expected_records(cols, degrees)
             # expected patch of every record
@@ -193,7 +195,7 @@ def run(prop, tier, seed, replay):
                 undecided = (srt[:, 1] - srt[:, 0] <= 1e-12) if d2.shape[1] > 1 else np.zeros(n, dtype=bool)
             exp_rows = rows_as_bytes(exp, names)
             bad = None
-            for label, catalog in (("created", cat), ("reopened", Catalog(root / f"c{ci}"))):
+            for label, catalog in (("created", cat), ("reopened", Catalog(root / f"c{ci % 3}"))):
                 got_all = Counter()
                 for p in catalog.keys():
                     data = catalog[p].load_data()
@@ -216,7 +218,9 @@ def run(prop, tier, seed, replay):
                     bad = (f"{label}: stored records differ from the input: {sum(lost.values())} lost, "
                            f"{sum(extra.values())} not in the input (of {n})")
                     break
-            C.remove(root / f"c{ci}")
+            if ci % 2 == 0:
+                C.remove(root / f"c{ci % 3}")   # odd cases leave their catalog: the next creation at this path overwrites it,
+                #                                  after this process has read its patches (nothing of it may survive)
             ck.case({k: rep[k] for k in ("n", "chunksize", "workers", "source", "degrees", "mode", "dtype", "N")}
                     if len(ck.samples) < 4 else None, desc if (n > c and N > 1) else None)
             if bad:
